@@ -185,6 +185,10 @@ def gen_time(rng, kind):
 def gen_word(rng, maxlen=6):
   n = rng.randint(1, maxlen)
   s = "".join(rng.choice(CHARS) for _ in range(n))
+  if rng.random() < 0.12:
+    # an ampersand is ordinary cue text; a run that ENDS in '&' + letters looks like a truncated character reference
+    # (no spelled-out references: whether SubRip text decodes them is not part of C10)
+    s += rng.choice(["Q&A", "AT&T", " R&D", "&", "a &b"])
   return s
 
 
